@@ -84,7 +84,7 @@ Definition spec_scalar (k : kind) (v : oval) (inlit : bool) : res sval :=
   end.
 
 (* enums: by name; by number only inside a message literal (text format), where a closed enum
-   admits only its declared numbers *)
+   accepts only its declared numbers *)
 Definition spec_enum (ed : enumdesc) (v : oval) (inlit : bool) : res sval :=
   match v with
   | OIdent id =>
@@ -283,4 +283,23 @@ Definition spec_chk (c : opt_case) : bool :=
     | Err _, (ObsErr _ | ObsPanic | ObsOther) => true
     | _, _ => false
     end
+  end.
+
+(* what the lexer guarantees about the integer literals of a value, at every depth *)
+Fixpoint lexable_b (v : oval) : bool :=
+  match v with
+  | OInt z => (- 2 ^ 63 <=? z) && (z <=? 2 ^ 63 - 1)
+  | OUint n => (0 <=? n) && (n <=? 2 ^ 64 - 1)
+  | OMsg fs => forallb (fun p => lexable_b (snd p)) fs
+  | OList es => forallb lexable_b es
+  | _ => true
+  end.
+Definition stmts_lexable (sts : list stmt) : bool := forallb (fun st => lexable_b (svalue st)) sts.
+
+(* the outcome of the strict run and of the specification: the same message, or both reject *)
+Definition same_outcome (a : res (mval * list stmt)) (b : res mval) : Prop :=
+  match a, b with
+  | Ok (m, _), Ok m' => m = m'
+  | Err _, Err _ => True
+  | _, _ => False
   end.
